@@ -159,3 +159,15 @@ def hexs(b):
 
 def unhex(h):
     return b"" if h == "-" else bytes.fromhex(h)
+
+
+def run_harness_chunks(harness, lines, size=1500):
+    """run_harness_resilient in chunks: a sanitizer abort restarts the harness on the rest of
+    the chunk only (the lines are long; re-feeding the whole tail after every abort is quadratic)"""
+    out, crashes = [], {}
+    for a in range(0, len(lines), size):
+        o, c = pc.run_harness_resilient(harness, lines[a:a + size])
+        out += o
+        for k, v in c.items():
+            crashes[a + k] = v
+    return out, crashes
